@@ -116,8 +116,7 @@ theorem C05_bodies_inside_partial (fs : FS) (cwd : Str) (o : PackOpts) (src : St
 
 /-! ## non-vacuity -/
 
-/-- `/t/src` with a file, an in-tree link `in -> a`, an out-of-tree link `out -> /t/ext/s`
-and a sibling-prefix link `sib -> /t/srcx/s` -/
+/-- `/t/src` with a file, an in-tree link `in -> a` and an out-of-tree link `out -> /t/ext/s` -/
 def c05fs : FS := [
   (["t".toList], .dir 0o755 0),
   (["t".toList, "src".toList], .dir 0o755 0),
